@@ -29,7 +29,7 @@ EXPLANATION = (
     "; RL-sem - Rule.load / unload interpreted on the four loaded states (both parts are loaded with the engine handed in, whatever was loaded before); loading leaves the text as it was; X1-sem - format_infix interpreted on a corpus of operand spellings x operator symbols"
 )
 ASSUMPTIONS = ["decides structure and wiring of antecedent evaluation; the numeric value of a particular antecedent is not decided"]
-FLOORS = {"PD": 4, "T1": 2, "W1": 1, "P9": 7, "P10": 2, "P3": 3, "P2": 14, "LD": 4, "X1": 2}
+FLOORS = {"T2-own": 1, "P11": 4, "PD": 4, "T1": 2, "W1": 1, "P9": 7, "P10": 2, "P3": 3, "P2": 14, "LD": 4, "X1": 2}
 
 
 def run(check: Check) -> None:
@@ -59,7 +59,12 @@ def run(check: Check) -> None:
     wiring.p3_weight(check)
     wiring.p10_activation_degree_lookup(check)  # "for an output variable, the aggregated activation of that term"
     for cls in c08.ACTIVATIONS:  # "the connectives are computed with the rule block's conjunction and disjunction operators"
-        activation_semantics(check, cls, ("conjunction", "disjunction"))
+        # ... and "for an output variable, the aggregated activation of that term": the activations accumulated so far, for the methods that fire as they go
+        activation_semantics(check, cls, ("conjunction", "disjunction") + (("accumulated",) if cls in ("General", "First", "Last", "Threshold") else ()))
+    from .c13 import no_inplace_on_handed_values
+
+    # "the activation degree of a loaded rule equals weight x antecedent value" - and stays so: nothing the degree is handed to (the trigger path) rewrites it
+    no_inplace_on_handed_values(check, ["Rule.trigger"], rule="T2-own")
     # X1-sem decides the spacing by interpretation; X1 (the alternation handed to re.sub, read as a regular expression) adds the exact alphabet where
     # the pattern is built in a way it can read, and is the fallback where X1-sem is undecided
     decided = x1_format_infix_semantics(check)
